@@ -2,6 +2,6 @@
 # findings/run_demo.sh <repo-dir> : run the five demonstrations against a tree (copied in, run, removed).
 d="${1:?repo dir}"; here="$(cd "$(dirname "$0")" && pwd)"
 . "$here/../env.sh"
-cp "$here/F6/zz_f6_test.go" "$d/internal/httpsfv/"; cp "$here/F10/zz_f10_test.go" "$d/http2/"; cp "$here/F1/zz_f1_test.go" "$here/F4/zz_f4_test.go" "$d/http2/"; cp "$here/F2/zz_f2_test.go" "$d/webdav/"; cp "$here/F3/zz_f3_test.go" "$d/idna/"; cp "$here/F5/zz_f5_test.go" "$here/F11/zz_f11_test.go" "$d/internal/http3/"; cp "$here/F12/zz_f12_test.go" "$d/http2/hpack/"; cp "$here/F13/zz_f13_test.go" "$here/F14/zz_f14_test.go" "$here/F15/zz_f15_test.go" "$d/html/"
+cp "$here/F6/zz_f6_test.go" "$d/internal/httpsfv/"; cp "$here/F10/zz_f10_test.go" "$d/http2/"; cp "$here/F1/zz_f1_test.go" "$here/F4/zz_f4_test.go" "$d/http2/"; cp "$here/F2/zz_f2_test.go" "$d/webdav/"; cp "$here/F3/zz_f3_test.go" "$d/idna/"; cp "$here/F5/zz_f5_test.go" "$here/F11/zz_f11_test.go" "$d/internal/http3/"; cp "$here/F12/zz_f12_test.go" "$here/F16/zz_f16_test.go" "$d/http2/hpack/"; cp "$here/F13/zz_f13_test.go" "$here/F14/zz_f14_test.go" "$here/F15/zz_f15_test.go" "$d/html/"
 (cd "$d" && go test -count=1 -run TestVerifF ./http2 ./http2/hpack ./html ./webdav ./idna ./internal/http3 ./internal/httpsfv 2>&1 | grep -v '^\s*$' | grep -E '^(---|ok|FAIL|panic|\s+zz_|.*zz_f)' | head -40)
-rm -f "$d/internal/httpsfv/zz_f6_test.go" "$d"/http2/zz_f[14]_test.go "$d/http2/zz_f10_test.go" "$d/webdav/zz_f2_test.go" "$d/idna/zz_f3_test.go" "$d/internal/http3/zz_f5_test.go" "$d/internal/http3/zz_f11_test.go" "$d/http2/hpack/zz_f12_test.go" "$d/html/zz_f13_test.go" "$d/html/zz_f14_test.go" "$d/html/zz_f15_test.go"
+rm -f "$d/internal/httpsfv/zz_f6_test.go" "$d"/http2/zz_f[14]_test.go "$d/http2/zz_f10_test.go" "$d/webdav/zz_f2_test.go" "$d/idna/zz_f3_test.go" "$d/internal/http3/zz_f5_test.go" "$d/internal/http3/zz_f11_test.go" "$d/http2/hpack/zz_f12_test.go" "$d/http2/hpack/zz_f16_test.go" "$d/html/zz_f13_test.go" "$d/html/zz_f14_test.go" "$d/html/zz_f15_test.go"
